@@ -107,7 +107,12 @@ template <class Obj>
 static Verdict runOn(const DescT<Obj>& d, const Case& c, Info& info)
 {
     size_t imageSize = std::max<size_t>(d.headerSize, 24) + 6;
-    Obj prior = d.fromImage(background(c, imageSize));
+    Bytes priorImage = background(c, imageSize);
+    // half of the prior images of classes with a data length field: the field agrees with the data area, as in a received
+    // payload - every other field (flags, DLC, reserved bytes) stays arbitrary
+    if (d.lengthCell >= 0 && ((c.seed >> 3) & 1) && imageSize >= d.headerSize)
+        setCellBE(priorImage, d.cells[static_cast<size_t>(d.lengthCell)], imageSize - d.headerSize);
+    Obj prior = d.fromImage(priorImage);
     // earlier in-range writes / the sequence under test
     Obj o = prior;
     Model<Obj> m(d, o);
@@ -168,6 +173,17 @@ static Verdict runOn(const DescT<Obj>& d, const Case& c, Info& info)
                 ++writes;
                 changedOnNonZero = true;
                 info.tag("packet_set_payload");
+                continue;
+            }
+            if (d.varSetter)
+            {
+                // setData of the variable part: what was written reads back, every fixed header field keeps its value
+                VF_TRY(d.varSetter(o, c.ops[i].value));
+                m.data = d.data(o);
+                VF_TRY(m.check(o, "op " + std::to_string(i) + ": setData of the variable part"));
+                ++writes;
+                changedOnNonZero = true;
+                info.tag("variable_part_setter");
                 continue;
             }
             if (d.dataSetter)
